@@ -35,6 +35,9 @@ struct KnownFinding {
     /// ... and be at least this long
     #[serde(default)]
     printed_min_len: Option<usize>,
+    /// ... and at most this long
+    #[serde(default)]
+    printed_max_len: Option<usize>,
     /// ... and its source must be of this kind ("parsed-range", "setop-range", "version")
     what: String,
     /// a concrete failing input: the finding is announced only while this still fails
@@ -64,6 +67,11 @@ impl KnownFinding {
         }
         if let Some(n) = self.printed_min_len {
             if printed.len() < n {
+                return false;
+            }
+        }
+        if let Some(n) = self.printed_max_len {
+            if printed.len() > n {
                 return false;
             }
         }
@@ -118,6 +126,7 @@ struct Args {
     class: Option<String>,
     profile_tag: String,
     no_known_lines: bool,
+    repo_state: String,
 }
 
 fn parse_args() -> Result<Args, String> {
@@ -145,6 +154,7 @@ fn parse_args() -> Result<Args, String> {
         class: None,
         profile_tag: if cfg!(debug_assertions) { "sim".into() } else { "simrel".into() },
         no_known_lines: false,
+        repo_state: "unknown".into(),
     };
     let mut it = std::env::args().skip(1);
     a.cmd = it.next().ok_or("usage: semver-dst <check|replay> ...")?;
@@ -172,6 +182,8 @@ fn parse_args() -> Result<Args, String> {
             "--write-summary" => a.write_summary = Some(PathBuf::from(val("--write-summary")?)),
             "--class" => a.class = Some(val("--class")?),
             "--no-known-lines" => a.no_known_lines = true,
+            "--repo-state" => a.repo_state = val("--repo-state")?,
+            "--strict-reentrancy" => run::STRICT_REENTRANCY.store(true, std::sync::atomic::Ordering::Relaxed),
             other => return Err(format!("unknown argument {:?}", other)),
         }
     }
@@ -556,6 +568,19 @@ fn cmd_check(args: &Args) -> i32 {
     }
     stats.add(C::violations, real.len() as u64);
 
+    // 4b. advisory observations from runs with re-entrant operations (never change the exit code)
+    let advisory_n = stats.get(C::advisory_reentrancy_observations);
+    for (class, detail) in &stats.advisory_samples {
+        let d: String = detail.chars().take(300).collect();
+        println!("REENTRANCY-NOTE: property={} {} - {}", prop.id(), class, d);
+    }
+    if advisory_n > 0 {
+        println!(
+            "REENTRANCY-NOTE: {} observation(s) in runs where a sink or reader re-entered the crate; advisory only (C12/C13 quantify over values, not calling contexts) - see DESIGN.md 7.2",
+            advisory_n
+        );
+    }
+
     // 5. reach warnings (never change the exit code)
     let mut reach_warnings: Vec<String> = Vec::new();
     if !args.fault_free_only {
@@ -669,6 +694,12 @@ fn cmd_check(args: &Args) -> i32 {
                     "flipped_records_read_as_another_value_consistently": stats.get(C::flip_runs_other_value),
                     "nested_operations_checked": stats.get(C::nested_ops_ok),
                 },
+            },
+            "repo_state": args.repo_state,
+            "advisory_reentrancy": {
+                "observations": advisory_n,
+                "samples": stats.advisory_samples.iter().map(|(c, d)| serde_json::json!({"class": c, "detail": d})).collect::<Vec<_>>(),
+                "note": "runs in which a stub re-entered the crate are advisory: nothing they observe changes the verdict",
             },
             "simulated_time_s": 0,
             "simulated_time_note": "the code under test has no clock, timer or deadline; there is no simulated time to cover",
